@@ -2,15 +2,12 @@
 Require Extraction.
 Require Import ExtrOcamlBasic.
 From Coq Require Import ZArith NArith.
-From Astisub Require Import Kit.Base Kit.Str Kit.Float64 Kit.Scan Kit.Html Model.Ops Model.Dur Model.Lin Model.Srt Model.Files Model.Vtt Model.Conv Model.ConvOps Model.Plain Model.PlainOps Model.Cli Model.TtxRow Model.Ttx Model.TtxSpec Model.Ssa Kit.Float64x Kit.Xml Model.Ttml Kit.XmlParse Kit.Utf8 Model.Stl Model.PlainSsa Model.SrtC Model.VttC Model.PlainStl Kit.IOW Model.StlIO Kit.Chk Model.StlC Model.PlainTtml Model.TtmlOpt Model.PlainTtx Kit.XmlParse2 Proofs.TtmlRender Proofs.TtmlRenderEx Model.TtxHam Kit.XmlEsc Model.TtmlGo Model.TtmlC Model.SsaC.
-From Astisub Require Import Model.ConvTtmlSsa Proofs.ConvTtmlSsaProofs.
-From Astisub Require Import Model.ConvSsaVtt Model.ConvVttSsa.
-From Astisub Require Import Model.ConvTtmlVtt.
-From Astisub Require Import Model.ConvTtml Model.ConvStl Model.ConvStlVtt Model.ConvStlTtml Model.ConvTtx.
-From Astisub Require Import Kit.ScanLim.
+From Astisub Require Import Kit.Base Kit.Str Kit.Float64 Kit.Scan Kit.Html Model.Ops Model.Dur Model.Lin Model.Srt Model.Files Model.Vtt Model.Conv Model.ConvOps Model.Plain Model.PlainOps Model.Cli Model.TtxRow Model.Ttx Model.TtxSpec Model.Ssa Kit.Float64x Kit.Xml Model.Ttml Kit.XmlParse Kit.Utf8 Model.Stl Model.PlainSsa Model.SrtC Model.VttC Model.PlainStl Kit.IOW Model.StlIO Kit.Chk Model.StlC Model.PlainTtml Model.TtmlOpt Model.PlainTtx Kit.XmlParse2 Proofs.TtmlRender Proofs.TtmlRenderEx Model.TtxHam Kit.XmlEsc Model.TtmlGo Model.ConvTtml Model.TtmlC Model.SsaC Model.ConvStl Model.ConvStlVtt Model.ConvStlTtml Model.ConvTtx Model.TtxFull Kit.Int64 Model.Ops64 Model.StlCW.
+From Astisub Require Import Kit.ScanLim Model.ConvSsaVtt Model.ConvTtmlSsa Model.ConvTtmlVtt Model.ConvVttSsa Proofs.ConvTtmlSsaProofs.
 Extraction "model.ml"
   Z.add Z.mul Z.opp Z.div Z.modulo Z.of_N Z.to_N N.add N.mul
   order merge add_dur force_duration fragment unfragment optimize remove_styling item_text
+  add_dur64 force_duration64 fragment64 linear_correction64
   format_duration parse_duration parse_srt format_stl format_stl_bytes parse_stl parse_stl_bytes
   trim_space split_byte atoi itoa_z fields
   lin linear_correction frac_float
@@ -35,5 +32,7 @@ Extraction "model.ml"
   parse_color_c parse_time_c text_lines_c event_item_c event_of_item_c info_bytes_c
   ttml_time time_simple read_ttml doc_time_simple write_ttml write_ttml_bytes indent_doc format_ttml xml_parse ttml_enc ttml_dec ttml_dec2 ttml_optimize render_ttml denote_ttml ex_rendering ex_model xml_parse2 write_ttml_bytes_go xml_legal convert_srt_ttml convert_vtt_ttml convert_ssa_ttml read_ttml_c write_ttml_c wdoc_proj ttml_unmarshal_c propagate_c print_node_go
   read_stl read_faithful write_stl write_faithful encode_text_stl text_faithful decode_bytes open_row stl_ttx_row
-  parse_gsi gsi_faithful gsi_bytes parse_tti tti_bytes new_gsi new_tti sattr0_stl time_faithful stl_enc stl_dec read_stl_sched read_stl_fail_at write_stl_to read_stl_c write_stl_c encode_text_stl_c open_row_c stl_ttx_row_c parse_gsi_c gsi_bytes_c parse_tti_c tti_bytes_c decode1_c convert_ttml_ssa convert_ttml_ssa_by ttml_ssa_okb read_ttml_bytes2 convert_ssa_vtt convert_vtt_ssa convert_ttml_vtt convert_srt_stl convert_vtt_stl convert_ssa_stl convert_ttml_stl convert_stl_vtt convert_stl_ttml_go
-  scan_lim.
+  parse_gsi gsi_faithful gsi_bytes parse_tti tti_bytes new_gsi new_tti sattr0_stl time_faithful stl_enc stl_dec read_stl_sched read_stl_fail_at write_stl_to read_stl_c write_stl_c encode_text_stl_c open_row_c stl_ttx_row_c parse_gsi_c gsi_bytes_c parse_tti_c tti_bytes_c decode1_c convert_srt_stl convert_vtt_stl convert_ssa_stl convert_ttml_stl convert_stl_vtt convert_stl_ttml_go
+  tf_of tf_reads tf_oneshot
+  parse_gsi gsi_faithful gsi_bytes parse_tti tti_bytes new_gsi new_tti sattr0_stl time_faithful stl_enc stl_dec read_stl_sched read_stl_fail_at write_stl_to read_stl_c write_stl_c encode_text_stl_c open_row_c stl_ttx_row_c parse_gsi_c gsi_bytes_c parse_tti_c tti_bytes_c decode1_c convert_srt_stl convert_vtt_stl convert_ssa_stl convert_ttml_stl convert_stl_vtt convert_stl_ttml_go write_stl_items_c item_flat read_stl_fail_at_wd
+  convert_ttml_ssa convert_ttml_ssa_by ttml_ssa_okb read_ttml_bytes2 convert_ssa_vtt convert_vtt_ssa convert_ttml_vtt scan_lim.
